@@ -152,14 +152,16 @@ class LasWriter:
             )
             restore_needed = True
 
-        # count the points once they are written: if the write fails, the header
-        # written by close() must not advertise points that are not in the file
-        self.point_writer.write_points(points)
-        self.header.grow(points)
-
-        if restore_needed:
-            points.offsets, points.scales = saved_offsets, saved_scales
-            points.X, points.Y, points.Z = saved_X, saved_Y, saved_Z
+        try:
+            # count the points once they are written: if the write fails, the header
+            # written by close() must not advertise points that are not in the file
+            self.point_writer.write_points(points)
+            self.header.grow(points)
+        finally:
+            # also when the write fails: the caller's points are given back as they were
+            if restore_needed:
+                points.offsets, points.scales = saved_offsets, saved_scales
+                points.X, points.Y, points.Z = saved_X, saved_Y, saved_Z
 
     def write_evlrs(self, evlrs: VLRList) -> None:
         """Writes the EVLRs to the file
